@@ -6,17 +6,25 @@
                   satisfying the C04 contract (instances: linear, two linear layers), regularizer terms, loss table: both code
                   paths agree / batch = sum / gradient, Huber outside the ball, weighted zero-one loss), axiom-free over Q;
                   cross-entropy (log-sum-exp shift, softmax - one_hot, both label encodings), Huber and absolute loss for the
-                  polymorphic code over every ordered field with exp/log/sqrt, axiom-free
+                  polymorphic code over every ordered field with exp/log/sqrt, axiom-free; NegativeAUC as coded (sort, sweep, ties,
+                  invert, normalisation) = pair counting with ties one half for every order std::sort may leave equal scores in,
+                  independent of batching and element order; SquaredLoss<Sequence,Sequence> (both paths, exception, batch = sum,
+                  gradient = derivative, ignored prefix), axiom-free; cross-entropy over R with exp/ln: the coded gradient is the
+                  derivative (Coquelicot is_derive / derivable_pt_lim) of the coded value -- these four theorems use the
+                  standard-library real axioms, classic and functional extensionality (recorded per theorem in the evidence)
   correspondence  extracted model (exact Q arithmetic; on real data the float instantiation of the Section-polymorphic
                   cross-entropy (both label encodings), HuberLoss and AbsoluteLoss at 1e-12) vs harness/c06_loss.cpp compiled from
                   /repo on the same case lines: regularizers (G), the 10 loss classes on one batch through batch and
                   single-element entry points (L), AbstractLoss::eval(Data,Data) (M), ErrorFunction plain / weighted /
                   regularised / mini-batch with a LinearModel for thread counts 1,2,3,16 and several partitions (E, W, R, B),
-                  ErrorFunction with LinearModel >> LinearModel (bilinear in the parameters; N), ZeroOneLoss weighted eval (Z).
+                  ErrorFunction with LinearModel >> LinearModel (bilinear in the parameters; N), ZeroOneLoss weighted eval (Z),
+                  NegativeAUC incl. ties, absent classes (NaN), the empty data set (exception), unequal batches, thread counts (A;
+                  exact when both class sizes are powers of two, else 1e-14), SquaredLoss<Sequence,Sequence> with ignored prefix and
+                  fresh / reused gradient objects (S; exact).
                   Exact on dyadic data (the implementation's double must be the model's rational, or its correctly rounded
                   value when a division by a non power of two is involved; Huber's outer branch: 1e-15).
   spec monitors   evaluated on the implementation's output only, on all anchored classes incl. those without Coq model
-                  (NegativeAUC, models with non-linear activations):
+                  (models with non-linear activations):
                   derivative-call value = eval value, batch = sum of single-element calls, batch gradient rows = single-element
                   gradients, dataset error = mean of brute-force per-element losses, invariance under re-batching and thread
                   count, equal weights = unweighted, weighted = sum w l / sum w, regularizer adds factor*term exactly, mini-batch
@@ -286,11 +294,14 @@ def gen_auc_case(rng):
             if sum(labs) == n: labs[-1] = 0
     if rng.random() < 0.2: labs = [l * rng.choice([1, 2, 3]) for l in labs]
     pool = [dyq(rng, -3, 3, (1, 2)) for _ in range(rng.choice([1, 2, 3, 3, 5, 9, 30]))]
-    sc = [fq(rng.choice(pool)) for _ in range(n)]
+    # prediction columns: 1 (column 0 is the score), 2 (column 1 is the score), 3 (documented exception)
+    r = rng.random(); dim = 1 if r < 0.7 else (2 if r < 0.95 else 3)
+    sc = [fq(rng.choice(pool)) for _ in range(n * dim)]
+    hd = "" if dim == 1 and rng.random() < 0.5 else " %d" % dim
     lines = []
     for inv in (0, 1):
-        lines.append("A %d 1 | %s | %s | %s" % (inv, str(n) if n else "", " ".join(map(str, labs)), " ".join(sc)))
-        lines.append("A %d %d | %s | %s | %s" % (inv, rng.choice(THREADS), " ".join(map(str, partition(rng, n))), " ".join(map(str, labs)), " ".join(sc)))
+        lines.append("A %d 1%s | %s | %s | %s" % (inv, hd, str(n) if n else "", " ".join(map(str, labs)), " ".join(sc)))
+        lines.append("A %d %d%s | %s | %s | %s" % (inv, rng.choice(THREADS), hd, " ".join(map(str, partition(rng, n))), " ".join(map(str, labs)), " ".join(sc)))
     return lines
 
 
@@ -512,11 +523,12 @@ def mon_case(lines, outs):
             if "v" not in d or Fraction(fh(d["v"])) != wrv or fh(d["dv"]) != fh(d["v"]) or [Fraction(a) for a in fhl(d["g"])] != wrg:
                 bad.append("G:%s:regularizer-term| %sNormRegularizer mask=%s at %s: got %s, stated value %s gradient %s" % (hd[1], hd[1], s[1], s[2], out, float(wrv), [float(a) for a in wrg]))
         elif k == "A":
-            labs = [int(x) for x in s[2]]; sc = [pq(x) * (-1 if hd[1] == "1" else 1) for x in s[3]]
+            labs = [int(x) for x in s[2]]; dim = int(hd[3]) if len(hd) > 3 else 1
+            sc = [pq(x) * (-1 if hd[1] == "1" else 1) for x in s[3]][min(dim, 2) - 1::dim]        # column 0 of 1, column 1 of 2 columns
             pos = [x for x, l in zip(sc, labs) if l > 0]; neg = [x for x, l in zip(sc, labs) if l == 0]
-            what = "NegativeAUC(invert=%s) threads=%s batches=%s labels=%s scores=%s" % (hd[1], hd[2], s[1], s[2], s[3])
-            if not labs:
-                if out.split()[1:2] != ["EXC"]: bad.append("A:auc:empty| %s: empty data set, documented exception expected, got %s" % (what, out[:80]))
+            what = "NegativeAUC(invert=%s) threads=%s batches=%s labels=%s predictions(%d column%s)=%s" % (hd[1], hd[2], s[1], s[2], dim, "s" if dim > 1 else "", s[3])
+            if not labs or dim > 2:
+                if out.split()[1:2] != ["EXC"]: bad.append("A:auc:empty| %s: %s, documented exception expected, got %s" % (what, "empty data set" if not labs else "more than two columns", out[:80]))
             elif "a" not in d:
                 bad.append("A:auc:exception| %s: %s" % (what, out[:160]))
             elif not pos or not neg:
@@ -640,6 +652,8 @@ def main():
         "modelled not verified: the OpenMP runtime delivers one of the modelled schedules (contiguous batch ranges per thread, critical-region merges in some order); libm exp/log/sqrt; remora expression templates (sum, norm_sqr, max) compute the sums the model writes as folds",
         "cross-entropy (both label encodings), HuberLoss and AbsoluteLoss on real data are compared through the float instantiation of the Section-polymorphic model functions (OCaml IEEE doubles, same libm) at 1e-12 and against a log-sum-exp reference at 1e-9; the theorems about these functions hold over every ordered field with exp/log/sqrt laws (the reals are one), not about IEEE rounding",
         "the chain-rule theorem for any model needs the model contract (C04: weightedParameterDerivative additive over the batch + adjoint identity); it is proved here for LinearModel and LinearModel >> LinearModel and assumed (finite-difference monitor only) for models with non-linear activations",
+        "NegativeAUC: the model sorts with insertion sort, std::sort may order equal scores differently -- C06_auc_sweep_any_sorted_permutation proves the sweep gives the same value for every non-increasing arrangement; the model returns NaN exactly when a class is absent (the C++ computes 0.0/0.0) and the exact rational otherwise; the C++ value is compared exactly when both class sizes are powers of two (all double operations exact) and at 1e-14 absolute otherwise (FP/double(N), TP/double(P) round)",
+        "the four real-number theorems about cross-entropy (is_derive) are about the model's code read over R with exp/ln, not about IEEE doubles; they depend on ClassicalDedekindReals.sig_forall_dec, ClassicalDedekindReals.sig_not_dec, Classical_Prop.classic, FunctionalExtensionality.functional_extensionality_dep",
         "finite-difference monitors use central differences with steps 2^-17 and 2^-20 (entries where the two disagree, i.e. kinks, are skipped) at 1e-5 relative"]
     ck.assumptions = [
         "datasets are non-empty (ErrorFunctionImpl divides by the number of batches/elements; zero batches is an integer division by zero in the C++)",
@@ -647,6 +661,8 @@ def main():
         "regularizer masks are non-negative (OneNormRegularizer returns |x_i m_i| as value but sign(x_i)*m_i as gradient: inconsistent for negative mask entries)",
         "gradient theorems exclude kinks by explicit side conditions; at a kink the implementation's choice (strict `> 0` tests) is compared with the model on exact data",
         "weights of the weighted error function are positive; equal-weight theorem for any common non-zero weight",
+        "NegativeAUC: labels are class labels (every label > 0 is positive), scores are finite and different from -DBL_MAX, predictions have one column; with an absent class the pair-counting value is 0/0 and the code returns NaN (accepted as the coded behaviour, any number would be flagged)",
+        "SquaredLoss<Sequence,Sequence>: label and prediction sequences have equal lengths and element sizes (SIZE_CHECKs vanish under NDEBUG)",
         "exact comparison uses dyadic rationals small enough that every double operation of the implementation is exact except final divisions by non powers of two (then the correctly rounded quotient is required)"]
     ck.proofs()
     model = extract_model(PID, "C06Extract.v", "c06_driver.ml")
@@ -820,7 +836,7 @@ def main():
     ck.cov["distinct_nontrivial"] = len(set(l for l in flat if nontrivial(l)))
     ck.cov["rule"] = ("one evaluation = one case line executed by the harness compiled from /repo (a loss on one batch through 4 entry points, AbstractLoss::eval on a partitioned dataset, "
                       "ErrorFunction eval+evalDerivative in one configuration of loss x model x partition x thread count x weights/regularizer/mini-batch, a regularizer, NegativeAUC, "
-                      "ZeroOneLoss weighted eval); non-trivial = at least two elements (parameters for G); distinct = distinct case lines")
+                      "ZeroOneLoss weighted eval, SquaredLoss<Sequence,Sequence> eval+evalDerivative on one batch of sequences); non-trivial = at least two elements (parameters for G); distinct = distinct case lines")
     ck.cov["samples"] = [c[:2] for c in (cases[:1] + cases[len(cases) // 2:len(cases) // 2 + 1] + zcases[:1])]
     ck.cov["traces_validated_against_impl"] = len(cases)
     ck.notes["line_kinds"] = kinds
